@@ -619,9 +619,10 @@ def l2_combinator(run, cf, R="C16.L2"):
     if seen != {"some", "none"}:
         problems.append("the two outcomes of the legend search are not both handled")
     if problems:
-        run.bad(R, "legend-cut", where(b), "; ".join(sorted(set(problems)))[:400])
-    else:
-        run.ok(R, "legend (combinator form): input.find(marker).and_then(parse ok -> (loc, entries)); Some -> input[..loc] drawn + entries added, None -> whole input", where(b))
+        # not (a correct instance of) this form: the other two recognisers decide; if they cannot either, they report
+        run.note("%s: and_then form of the legend decision not established: %s" % (R, "; ".join(sorted(set(problems)))[:300]))
+        return False
+    run.ok(R, "legend (combinator form): input.find(marker).and_then(parse ok -> (loc, entries)); Some -> input[..loc] drawn + entries added, None -> whole input", where(b))
     return True
 
 
